@@ -767,4 +767,277 @@ theorem eval_stInd (env : Env) (impl : FmtImpl) (d : Draft) (fc : Option FormatC
     (i s : Json) (hs : Spec.noRef s = true) : StInd (eval env impl (d.cfg fc) fuel i s) :=
   N_eval (stIndClosed env) impl (draft_refOnly d fc) fuel i s hs
 
+/-! ### attribution of errors to keywords, and the schema in which a keyword stands alone -/
+
+/-- the error is attributed to keyword `k` (same function as `Props.C05.attributed`) -/
+def attrTo (k : Str) (e : Err) : Bool :=
+  match e.schemaPath.head? with
+  | some (.key h) => h == k || (k == skey "if" && (h == skey "then" || h == skey "else"))
+  | _ => false
+
+/-- the members kept when keyword `k` stands alone (same list as in `Props.C05.alone`) -/
+def aloneKvs (cfg : Cfg) (kvs : List (Str × Json)) (k : Str) : List (Str × Json) :=
+  kvs.filter fun p => p.1 == k || Spec.consulted.contains p.1 || p.1 == cfg.idKey
+
+theorem attrTo_eraseSch (k : Str) (e : Err) : attrTo k (eraseSch e) = attrTo k e := by
+  cases e; rfl
+
+theorem filter_attr_eraseSch {es es' : List Err} (h : es.map eraseSch = es'.map eraseSch) (k : Str) :
+    (es.filter (attrTo k)).map eraseSch = (es'.filter (attrTo k)).map eraseSch := by
+  have hc : (attrTo k ∘ eraseSch) = attrTo k := funext fun e => attrTo_eraseSch k e
+  have h1 : ∀ l : List Err, (l.filter (attrTo k)).map eraseSch = (l.map eraseSch).filter (attrTo k) := by
+    intro l
+    rw [List.filter_map, hc]
+  rw [h1, h1, h]
+
+/-! ### lists of members -/
+
+theorem lookup_filter {c : Str} {keep : Str × Json → Bool} (hk : ∀ p : Str × Json, p.1 = c → keep p = true) :
+    ∀ l : List (Str × Json), Json.lookup c (l.filter keep) = Json.lookup c l
+  | [] => rfl
+  | (k', v') :: l => by
+    by_cases hkeep : keep (k', v') = true
+    · rw [List.filter_cons_of_pos hkeep]
+      unfold Json.lookup
+      rw [lookup_filter hk l]
+    · rw [List.filter_cons_of_neg hkeep, lookup_filter hk l]
+      have hne : ¬ k' = c := fun he => hkeep (hk (k', v') he)
+      conv => rhs; unfold Json.lookup
+      rw [if_neg hne]
+
+theorem filter_key_eq {k : Str} {v : Json} : ∀ {kvs : List (Str × Json)},
+    Spec.keysDistinct kvs = true → (k, v) ∈ kvs → kvs.filter (fun p => p.1 == k) = [(k, v)]
+  | [], _, h => by cases h
+  | (k', v') :: rest, hd, h => by
+    simp only [Spec.keysDistinct, Bool.and_eq_true, Bool.not_eq_true', List.any_eq_false, beq_iff_eq] at hd
+    rcases List.mem_cons.mp h with he | hm
+    · cases he
+      rw [List.filter_cons_of_pos (by simp)]
+      congr 1
+      rw [List.filter_eq_nil_iff]
+      intro p hp
+      simpa using hd.1 p hp
+    · have hne : ¬ k' = k := fun he => hd.1 (k, v) hm (by rw [he])
+      rw [List.filter_cons_of_neg (by simpa using hne)]
+      exact filter_key_eq hd.2 hm
+
+theorem flatMap_congr_mem {α β : Type} {f g : α → List β} : ∀ {l : List α},
+    (∀ x ∈ l, f x = g x) → l.flatMap f = l.flatMap g
+  | [], _ => rfl
+  | x :: l, h => by
+    rw [List.flatMap_cons, List.flatMap_cons, h x (List.mem_cons_self ..),
+      flatMap_congr_mem fun y hy => h y (List.mem_cons_of_mem _ hy)]
+
+theorem flatMap_filter_of_nil {α β : Type} {f : α → List β} {p : α → Bool} : ∀ {l : List α},
+    (∀ x ∈ l, p x = false → f x = []) → l.flatMap f = (l.filter p).flatMap f
+  | [], _ => rfl
+  | x :: l, h => by
+    have ih := flatMap_filter_of_nil (f := f) (p := p) fun y hy => h y (List.mem_cons_of_mem _ hy)
+    cases hp : p x
+    · rw [List.filter_cons_of_neg (by simp [hp]), List.flatMap_cons, h x (List.mem_cons_self ..) hp, ← ih]
+      rfl
+    · rw [List.filter_cons_of_pos hp, List.flatMap_cons, List.flatMap_cons, ← ih]
+
+/-! ### where the schema path of a keyword's errors starts -/
+
+theorem inner_errs_mem {g : Gen} {b' : Option Nat} {k : List Err → Gen} {b : Option Nat} {st : RState}
+    {e : Err} (h : e ∈ (inner g b' k b st).errs) : ∃ es st', e ∈ (k es b st').errs := by
+  unfold inner at h
+  split at h
+  · exact ⟨_, _, h⟩
+  · exact ⟨_, _, h⟩
+  · cases h
+
+theorem descend_key_head {g : Gen} {q : PathElem} {b : Option Nat} {st : RState} {e : Err}
+    (h : e ∈ (descendG g none (some q) b st).errs) : e.schemaPath.head? = some q := by
+  unfold descendG at h
+  rw [mapErrs_errs] at h
+  obtain ⟨e0, _, rfl⟩ := List.mem_map.mp h
+  cases e0
+  rfl
+
+/-- the errors of `if` start with `then` or `else` -/
+theorem kwIf_heads (rec : Rec) (v inst schema : Json) (b : Option Nat) (st : RState) :
+    ∀ e ∈ (kwIf rec v inst schema b st).errs,
+      e.schemaPath.head? = some (.key (skey "then")) ∨ e.schemaPath.head? = some (.key (skey "else")) := by
+  intro e he
+  unfold kwIf innerValid at he
+  obtain ⟨es, st', he⟩ := inner_errs_mem he
+  dsimp only at he
+  cases hem : es.isEmpty
+  · rw [hem, if_neg (by decide)] at he
+    cases hg : schema.get? (skey "else") with
+    | none => rw [hg] at he; cases he
+    | some t => rw [hg] at he; exact .inr (descend_key_head he)
+  · rw [hem, if_pos rfl] at he
+    cases hg : schema.get? (skey "then") with
+    | none => rw [hg] at he; cases he
+    | some t => rw [hg] at he; exact .inl (descend_key_head he)
+
+theorem stamp_head {k : Str} (hk : ¬ (k = skey "if" ∨ k = skey "$ref")) (v inst schema : Json) (e : Err) :
+    (stamp k v inst schema e).schemaPath.head? = some (.key k) := by
+  unfold stamp
+  rw [if_neg hk]
+  cases e
+  rfl
+
+theorem stamp_if_schemaPath (v inst schema : Json) (e : Err) :
+    (stamp (skey "if") v inst schema e).schemaPath = e.schemaPath := by
+  unfold stamp
+  rw [if_pos (.inl rfl)]
+  cases e
+  rfl
+
+/-- the validator class binds the key `if` to the `if` function only -/
+def IfOnly (cfg : Cfg) : Prop := ∀ f, lookupS (skey "if") cfg.keywords = some f → f = KwFn.if_
+
+theorem runKeyword_none (env : Env) (impl : FmtImpl) (cfg : Cfg) (rec : Rec) (inst schema : Json)
+    (kv : Str × Json) (h : lookupS kv.1 cfg.keywords = none) :
+    runKeyword env impl cfg rec inst schema kv = nothing := by
+  unfold runKeyword
+  rw [h]
+
+theorem runKeyword_some (env : Env) (impl : FmtImpl) (cfg : Cfg) (rec : Rec) (inst schema : Json)
+    (kv : Str × Json) {f : KwFn} (h : lookupS kv.1 cfg.keywords = some f) :
+    runKeyword env impl cfg rec inst schema kv
+      = mapErrs (stamp kv.1 kv.2 inst schema) (applyKw env impl cfg rec f kv.2 inst schema) := by
+  unfold runKeyword
+  rw [h]
+
+/-- every error leaving the loop iteration of a keyword other than `if`, `$ref` starts with it -/
+theorem runKeyword_heads (env : Env) (impl : FmtImpl) (cfg : Cfg) (rec : Rec) (inst schema : Json)
+    (kv : Str × Json) (hk : ¬ (kv.1 = skey "if" ∨ kv.1 = skey "$ref")) (b : Option Nat) (st : RState) :
+    ∀ e ∈ (runKeyword env impl cfg rec inst schema kv b st).errs, e.schemaPath.head? = some (.key kv.1) := by
+  cases hl : lookupS kv.1 cfg.keywords with
+  | none => rw [runKeyword_none _ _ _ _ _ _ _ hl]; intro e he; cases he
+  | some f =>
+    rw [runKeyword_some _ _ _ _ _ _ _ hl]
+    intro e he
+    rw [mapErrs_errs] at he
+    obtain ⟨e0, _, rfl⟩ := List.mem_map.mp he
+    exact stamp_head hk _ _ _ _
+
+/-- every error leaving the loop iteration of a keyword is attributed to it -/
+theorem runKeyword_attr (env : Env) (impl : FmtImpl) {cfg : Cfg} (hif : IfOnly cfg) (rec : Rec)
+    (inst schema : Json) (kv : Str × Json) (hk : kv.1 ≠ skey "$ref") (b : Option Nat) (st : RState) :
+    ∀ e ∈ (runKeyword env impl cfg rec inst schema kv b st).errs, attrTo kv.1 e = true := by
+  by_cases hi : kv.1 = skey "if"
+  · obtain ⟨k, v⟩ := kv
+    dsimp only at hi
+    subst hi
+    cases hl : lookupS (skey "if") cfg.keywords with
+    | none => rw [runKeyword_none _ _ _ _ _ _ _ hl]; intro e he; cases he
+    | some f =>
+      rw [runKeyword_some _ _ _ _ _ _ _ hl]
+      have := hif f hl
+      subst this
+      intro e he
+      rw [mapErrs_errs] at he
+      obtain ⟨e0, he0, rfl⟩ := List.mem_map.mp he
+      have hh := kwIf_heads rec v inst schema b st e0 he0
+      unfold attrTo
+      rw [stamp_if_schemaPath]
+      rcases hh with h | h <;> rw [h] <;> rfl
+  · intro e he
+    have := runKeyword_heads env impl cfg rec inst schema kv (by rintro (h | h); exact hi h; exact hk h) b st e he
+    unfold attrTo
+    rw [this]
+    simp
+
+/-! ### one layer of `iter_errors` on a reference-free object -/
+
+open Spec in
+theorem noRef_filter (keep : Str × Json → Bool) : ∀ {l : List (Str × Json)},
+    noRef (.obj l) = true → noRef (.obj (l.filter keep)) = true
+  | [], _ => rfl
+  | (k, v) :: l, h => by
+    rw [noRef] at h ⊢
+    simp only [noRef.noRefKvs, Bool.and_eq_true] at h
+    have ih : noRef.noRefKvs (l.filter keep) = true := by
+      have := noRef_filter keep (l := l) (by rw [noRef]; exact h.2)
+      rwa [noRef] at this
+    by_cases hk : keep (k, v) = true
+    · rw [List.filter_cons_of_pos hk]
+      simp only [noRef.noRefKvs, Bool.and_eq_true]
+      exact ⟨h.1, ih⟩
+    · rw [List.filter_cons_of_neg hk]
+      exact ih
+
+theorem evalStep_obj_run (env : Env) (impl : FmtImpl) (cfg : Cfg) (rec : Rec) (inst : Json)
+    {l : List (Str × Json)} (hnr : Spec.noRef (.obj l) = true) {scope : Option Str}
+    (hsc : scopeOf cfg l = .ok scope) :
+    evalStep env impl cfg rec inst (.obj l)
+      = withScopeOpt env scope (seqG (runKeyword env impl cfg rec inst (.obj l)) l) := by
+  show (match scopeOf cfg l with
+        | .ok scope => withScopeOpt env scope (schemaBody env impl cfg rec inst l)
+        | .error cls => crashG cls) = _
+  rw [hsc, schemaBody_noRef env impl cfg rec inst hnr]
+
+theorem evalStep_obj_err (env : Env) (impl : FmtImpl) (cfg : Cfg) (rec : Rec) (inst : Json)
+    {l : List (Str × Json)} {cls : String} (hsc : scopeOf cfg l = .error cls) :
+    evalStep env impl cfg rec inst (.obj l) = crashG cls := by
+  show (match scopeOf cfg l with
+        | .ok scope => withScopeOpt env scope (schemaBody env impl cfg rec inst l)
+        | .error cls => crashG cls) = _
+  rw [hsc]
+
+/-- if some generator finishes normally inside the scope, the push succeeded: every generator runs
+    from the same pushed state -/
+theorem withScopeOpt_done (env : Env) (scope : Option Str) (st : RState) {g0 : Gen}
+    (h : (withScopeOpt env scope g0 none st).stop = .done) :
+    ∃ st1, ∀ g : Gen, (withScopeOpt env scope g none st).errs = (g none st1).errs
+      ∧ (withScopeOpt env scope g none st).stop = (g none st1).stop := by
+  cases scope with
+  | none => exact ⟨st, fun g => ⟨rfl, rfl⟩⟩
+  | some sc =>
+    unfold withScopeOpt withScope at h ⊢
+    dsimp only at h ⊢
+    cases hu : env.urljoin st.top sc with
+    | none => rw [hu] at h; cases h
+    | some u => exact ⟨{ st with scopes := u :: st.scopes }, fun g => ⟨rfl, rfl⟩⟩
+
+theorem scopeOf_alone (cfg : Cfg) (kvs : List (Str × Json)) (k : Str) :
+    scopeOf cfg (aloneKvs cfg kvs k) = scopeOf cfg kvs := by
+  unfold scopeOf aloneKvs
+  rw [lookup_filter]
+  intro p hp
+  simp [hp]
+
+theorem sameSiblings_alone (cfg : Cfg) (kvs : List (Str × Json)) (k : Str) :
+    SameSiblings (.obj (aloneKvs cfg kvs k)) (.obj kvs) := by
+  intro c hc
+  show Json.lookup c (aloneKvs cfg kvs k) = Json.lookup c kvs
+  unfold aloneKvs
+  rw [lookup_filter]
+  intro p hp
+  have : p.1 ∈ Spec.consulted := by rw [hp]; exact hc
+  simp [this]
+
+/-- what the union theorem needs to know about the validator class -/
+structure KwFacts (cfg : Cfg) : Prop where
+  refOnly : RefOnly cfg
+  ifOnly : IfOnly cfg
+  thenNot : lookupS (skey "then") cfg.keywords = none
+  elseNot : lookupS (skey "else") cfg.keywords = none
+  idNotIf : cfg.idKey ≠ skey "if"
+
+theorem draft_kwFacts (d : Draft) (fc : Option FormatChecker) : KwFacts (d.cfg fc) where
+  refOnly := draft_refOnly d fc
+  ifOnly := by
+    intro f hf
+    have h : (lookupS (skey "if") d.keywords = none ∨ lookupS (skey "if") d.keywords = some KwFn.if_) := by
+      cases d <;> decide +kernel
+    rcases h with h | h
+    · rw [show (d.cfg fc).keywords = d.keywords from rfl, h] at hf; cases hf
+    · rw [show (d.cfg fc).keywords = d.keywords from rfl, h] at hf; exact (Option.some.inj hf).symm
+  thenNot := by
+    show lookupS (skey "then") d.keywords = none
+    cases d <;> decide +kernel
+  elseNot := by
+    show lookupS (skey "else") d.keywords = none
+    cases d <;> decide +kernel
+  idNotIf := by
+    show d.idKey ≠ skey "if"
+    cases d <;> decide +kernel
+
 end JS
